@@ -894,6 +894,34 @@ def solve_repeat(tier="quick", seed=0, only=None):
                     if a["dt"] != b["dt"] or a["rho"] != b["rho"] or a["accepted"] != b["accepted"] or a["res"].iterate.x.tobytes() != b["res"].iterate.x.tobytes():
                         failures.append(dict(label=f"C10:second_solve_on_same_solver_differs:{pol}", input=inp, observed=f"trial {q}"))
                         break
+                # same solver, DIFFERENT arguments afterwards: must equal a fresh solver with those arguments
+                base_p = mk()
+                m_ = base_p.num_cons
+                if m_:
+                    y_alt = np.full(m_, 0.75)
+                    first.trials.clear()
+                    try:
+                        res3, exc3 = solver.solve(x0, y_alt), None
+                    except Exception as e:  # noqa
+                        res3, exc3 = None, e
+                    third = list(first.trials)
+                    ref3 = run(mk(), params, x0, y_alt)
+                    same3 = len(third) == len(ref3.trials) and all(a["dt"] == b["dt"] and a["rho"] == b["rho"] and a["res"].iterate.x.tobytes() == b["res"].iterate.x.tobytes() and a["start"].y.tobytes() == b["start"].y.tobytes() for a, b in zip(third, ref3.trials))
+                    if not same3:
+                        failures.append(dict(label=f"C10:solve_with_new_arguments_on_a_used_solver_differs_from_a_fresh_solver:{pol}", input=inp, observed=f"{len(third)} vs {len(ref3.trials)} trials"))
+                    # and with the default start (x0=None) after a solve with other multipliers
+                    first.trials.clear()
+                    try:
+                        solver.solve(None, None)
+                        solver_trials_a = list(first.trials)
+                        first.trials.clear()
+                        solver.solve(None, y_alt)
+                        solver_trials_b = list(first.trials)
+                        ref_b = run(mk(), params, None, y_alt)
+                        if not (len(solver_trials_b) == len(ref_b.trials) and all(a["start"].y.tobytes() == b["start"].y.tobytes() and a["res"].iterate.x.tobytes() == b["res"].iterate.x.tobytes() for a, b in zip(solver_trials_b, ref_b.trials))):
+                            failures.append(dict(label=f"C10:default_start_then_new_multipliers_differs_from_a_fresh_solver:{pol}", input=inp, observed="trajectories differ"))
+                    except Exception as e:  # noqa
+                        pass
                 # a fresh solver after other solves
                 fresh = run(mk(), params, x0, y0)
                 first.trials[:] = first_trials
